@@ -231,7 +231,7 @@ def make_jobs(ctx, only=None):
     add('recursion', *pack_recursion())
     add('negative-enum', *negative_enum_pack())
     add('keyword-enum-values', *keyword_enum_values_pack())
-    files, deps, mods, cells = pack_refs(4 if ctx.thorough else 2)
+    files, deps, mods, cells = pack_refs(4)
     add('refs', files, deps, mods, extra=cells)
     return jobs
 
@@ -272,7 +272,7 @@ def run(ctx, only=None):
                           dict(pack=job['id'], messages=[f['message']]))
     if not only and total < 8000:
         raise HarnessError(f'C02 exploration collapsed: {total} round trips')
-    ctx.extra['bound'] = f'reference matrix nesting depth <= {4 if ctx.thorough else 2}; palette variants <= 3 (+ explicit defaults)'
+    ctx.extra['bound'] = f'reference matrix nesting depth <= 4; palette variants <= 3 (+ explicit defaults)'
 
 
 def replay(ctx, state):
